@@ -84,6 +84,7 @@ pub struct U {
     nonce: i64,
     pub calls: u64,
     pub primed: Vec<ScAddress>,
+    pub advanced: u32,
 }
 
 pub fn flat<T, CE: Debug, E: Debug>(
@@ -142,6 +143,7 @@ impl U {
             nonce: 1,
             calls: 0,
             primed: Vec::new(),
+            advanced: 0,
         }
     }
 
@@ -168,6 +170,19 @@ impl U {
     }
     pub fn set_seq(&self, s: u32) {
         self.env.ledger().set_sequence_number(s);
+    }
+
+    /// Let `d` ledgers pass (5 s each). The harness keeps the total below the minimum persistent
+    /// TTL it configured (4 000 000 ledgers), so nothing a contract stored persistently is archived
+    /// by the harness's own clock; anything kept in temporary storage may well disappear.
+    pub fn advance(&mut self, d: u32) -> bool {
+        if self.advanced as u64 + d as u64 > 3_400_000 {
+            return false;
+        }
+        self.advanced += d;
+        self.set_seq(self.seq() + d);
+        self.set_time(self.time() + 5 * d as u64);
+        true
     }
 
     // ------------------------------------------------------------ checkpoint / restore
@@ -205,6 +220,11 @@ impl U {
         let r = f(self);
         self.restore(&ck);
         r
+    }
+
+    /// Run `f` and keep its effects (counterpart of `probe`, for symmetry at call sites).
+    pub fn call_keep<R>(&mut self, f: impl FnOnce(&mut U) -> R) -> R {
+        f(self)
     }
 
     /// All live ledger entries except authorisation nonces (harness artefacts).
